@@ -257,6 +257,36 @@ def exh_shard(arg, stt, deadline) -> None:
                     stt.record(spec, res, enumerated=True, sample=(i % 31 == 1 and px == "ab" and lr["exc"]))
 
 
+def scan_family_shard(arg, stt, deadline) -> None:
+    """A fixed project scanned under every option combination and every assignment of prefix-related names: two packages
+    T1, T2 below the root T0; T1/T3.py imports modules of T2 (one of them possibly excluded), T2 holds T4.py, T5.py and
+    the sub package T6 - T4/T5/T6 (and T1/T2) get names that string-extend each other under the adversarial renaming."""
+    (shard,) = arg
+    base = {"type": "scan", "root": "T0", "dirs": ["T1", "T2", "T2/T6"],
+            "pyfiles": ["T1/T3.py", "T1/__init__.py", "T2/T4.py", "T2/T5.py", "T2/T6/T7.py", "T2/__init__.py", "main.py"], "otherfiles": [],
+            "imports": [["T1/T3.py", "T0.T2.T4"], ["T1/T3.py", "T8.T9"], ["T2/T5.py", "T0.T2.T6.T7"], ["main.py", "T0.T1.T3"], ["T2/T6/T7.py", "T0.T2.T4"],
+                        ["main.py", "T0.T2.T5"]]}  # (the only import from T1 into T2 names T4)
+    rho1 = {f"T{i}": f"k{i:02d}" for i in range(12)}
+    triples = list(permutations(["a", "ab", "a_b", "aa"], 3))
+    i = 0
+    for (n4, n5, n6) in triples:
+        for (n1, n2) in (("b", "ba"), ("ba", "b"), ("c", "d")):
+            i += 1
+            if i % 16 != shard:
+                continue
+            rho2 = dict(rho1, T4=n4, T5=n5, T6=n6, T1=n1, T2=n2, T0="q", T8="qx", T9="aab")
+            for mp in ("", "T2"):
+                for ext in (False, True):
+                    for limit in (None, 1, 2):
+                        for excl in ([], ["T2/T4.py"], ["T2/T5.py"]):
+                            for rel in (False, True):
+                                spec = dict(base, module_path=mp, include_external=ext, level_limit=limit, exclude_files=excl,
+                                            relative_paths=rel, rho1=rho1, rho2=rho2)
+                                res = check_case(spec)
+                                res["labels"] = res["labels"][:1] + (["excluded-file+level-limit"] if excl and limit else [])
+                                stt.record(spec, res, enumerated=True, sample=(i % 7 == 1 and bool(excl) and limit == 1 and not rel and not ext))
+
+
 # ------------------------------------------------------------------------------ random
 
 TOKENS = [f"T{i}" for i in range(12)]
@@ -348,4 +378,7 @@ def run(ctx) -> None:
     n_perms = 3 if ctx.tier == "quick" else 6
     ctx.exhaustive("abstract-T4-renamings", MOD, "exh_shard", [(i, nsh, n_perms) for i in range(nsh)],
                    "abstract tree R{X{Z},Y,W}: all import relations with <= 2 edges x all unrelated 1x1 rules and 3 layer partitions with all layer rules x 6 assignments of (a, ab, a_b) to (X, Y, W)")
+    ctx.exhaustive("fixed-project-scan-options-x-name-assignments", MOD, "scan_family_shard", [(i,) for i in range(16)],
+                   "fixed two-package project: 24 assignments of (a, ab, a_b, aa) to three sibling entries x 3 package namings x module_path in {root, T2} x "
+                   "externals in/excluded x level_limit in {None, 1, 2} x {no exclusion, an imported file excluded, another file excluded} x absolute/relative paths")
     ctx.random("random-cases", MOD, "strategy", "check_case", 6000 if ctx.tier == "quick" else 120000)
